@@ -394,8 +394,20 @@ def shard(ctx):
                         pos_ = end_
                         if isinstance(obj, dict) and "container" in obj:
                             roots.append(obs.node_status(obj))
+                            # every record of the run is explained by its own children, whatever was evaluated before it
+                            tcm = check_tree(ctx, obj, text)
+                            for sig, msg in tcm.problems:
+                                ctx.violation("tree:several-data-files:" + sig, "record #%d of a run over 3 data files: %s" % (len(roots), msg), {"kind": "multi", "rules": text, "files": fl4})
                     ctx.res.counts["multi_data_roots_vs_exit"] += 1
                     if len(roots) == 3:
+                        # ... and has the status the same data file gets when it is evaluated alone
+                        alone = [root]
+                        for dx in others:
+                            ra = ctx.w.run({"k": "rc", "data": dx, "rules": text, "verbose": True})
+                            alone.append(obs.node_status(json.loads(ra["out"])) if ra.get("r") == "ok" else None)
+                        if None not in alone and roots != alone:
+                            ctx.violation("roots-vs-stand-alone:several-data-files", "validate -p on 3 data files: root statuses %s, the same files one by one %s" % (roots, alone),
+                                          {"kind": "multi", "rules": text, "files": fl4, "alone": alone})
                         want4 = 19 if "FAIL" in roots else 0
                         ctx.res.distinct.add(("multi-root", tuple(roots), r4["code"]))
                         if r4["code"] != want4:
@@ -407,6 +419,8 @@ def replay(case, w):
     if case["kind"] == "multi":
         r4 = w.run({"k": "cli", "argv": ["validate", "-r", "{S}/r.guard", "-d", "{S}/data", "-p", "-S", "none"], "files": case["files"]})
         roots = re.findall(r'"FileCheck":\s*\{[^}]*?"status":\s*"(\w+)"', r4.get("out", ""))
+        if case.get("alone") and roots != case["alone"]:
+            return False, "roots %s, stand-alone %s" % (roots, case["alone"])
         return r4.get("code") == (19 if "FAIL" in roots else 0), "roots %s exit %s" % (roots, r4.get("code"))
     if case["kind"] in ("gadget", "default"):
         res = w.run({"k": "rc", "data": case["data"], "rules": case["rules"], "verbose": True})
